@@ -16,9 +16,18 @@ import (
 var (
 	genesisInitializedKey = ds.NewKey("/genesis/initialized")
 	genesisStateRootKey   = ds.NewKey("/genesis/stateroot")
+	// finalizedHeightKey holds node-local bookkeeping written by SetFinal. It is not part of
+	// the application state: it must neither influence the state root nor be writable by transactions.
+	finalizedHeightKey = ds.NewKey("/finalizedHeight")
 	// Define a buffer size for the transaction channel
 	txChannelBufferSize = 10000
 )
+
+// isReservedKey reports whether the key is used by the executor itself and is therefore
+// excluded from the state root and protected from transactions.
+func isReservedKey(key ds.Key) bool {
+	return key.Equal(genesisInitializedKey) || key.Equal(genesisStateRootKey) || key.Equal(finalizedHeightKey)
+}
 
 // KVExecutor is a simple key-value store backed by go-datastore that implements the Executor interface
 // for testing purposes. It uses a buffered channel as a mempool for transactions.
@@ -70,9 +79,8 @@ func (k *KVExecutor) computeStateRoot(ctx context.Context) ([]byte, error) {
 		if result.Error != nil {
 			return nil, fmt.Errorf("error iterating query results: %w", result.Error)
 		}
-		// Exclude reserved genesis keys from the state root calculation
-		dsKey := ds.NewKey(result.Key)
-		if dsKey.Equal(genesisInitializedKey) || dsKey.Equal(genesisStateRootKey) {
+		// Exclude reserved keys (genesis markers, finalized height) from the state root calculation
+		if isReservedKey(ds.NewKey(result.Key)) {
 			continue
 		}
 		keys = append(keys, result.Key)
@@ -200,7 +208,7 @@ func (k *KVExecutor) ExecuteTxs(ctx context.Context, txs [][]byte, blockHeight u
 		}
 		dsKey := ds.NewKey(key)
 		// Prevent writing reserved keys via transactions
-		if dsKey.Equal(genesisInitializedKey) || dsKey.Equal(genesisStateRootKey) {
+		if isReservedKey(dsKey) {
 			return nil, 0, fmt.Errorf("transaction attempts to modify reserved key: %s", key)
 		}
 		err = batch.Put(ctx, dsKey, []byte(value))
@@ -240,7 +248,7 @@ func (k *KVExecutor) SetFinal(ctx context.Context, blockHeight uint64) error {
 		return errors.New("invalid blockHeight: cannot be zero")
 	}
 
-	return k.db.Put(ctx, ds.NewKey("/finalizedHeight"), []byte(fmt.Sprintf("%d", blockHeight)))
+	return k.db.Put(ctx, finalizedHeightKey, []byte(fmt.Sprintf("%d", blockHeight)))
 }
 
 // InjectTx adds a transaction to the mempool channel.
